@@ -26,6 +26,9 @@ func cdDecodeRun(c Case) Result {
 		mu.Unlock()
 	})
 	want := girc.ParseEvent(line)
+	mu.Lock()
+	before := len(seen) // events dispatched before the line is sent (CONNECTED, ...)
+	mu.Unlock()
 	if err := s.Send(line); err != nil {
 		s.Stop()
 		return Result{Obs: "?send-failed"}
@@ -51,21 +54,45 @@ func cdDecodeRun(c Case) Result {
 		}
 		return Result{Obs: obs, Oracle: oracle, Sig: "nil"}
 	}
+	// The line is dispatched as exactly one event: wait for the first event after Send
+	// (or for the connection to end), then compare.
 	exp := cdShowEvent(want)
-	found := false
-	for !found && time.Now().Before(deadline) {
+	found, closed := false, false
+	for !found && !closed && time.Now().Before(deadline) {
 		mu.Lock()
-		for _, x := range seen {
+		for _, x := range seen[before:] {
 			if x == exp {
 				found = true
 			}
 		}
+		arrived := len(seen) > before
 		mu.Unlock()
-		if !found {
+		if found {
+			break
+		}
+		if arrived { // something else was dispatched: give late deliveries a moment, then stop
+			time.Sleep(20 * time.Millisecond)
+			mu.Lock()
+			for _, x := range seen[before:] {
+				if x == exp {
+					found = true
+				}
+			}
+			mu.Unlock()
+			break
+		}
+		select {
+		case <-s.Done:
+			closed = true
+		default:
 			time.Sleep(time.Millisecond)
 		}
 	}
-	s.Stop()
+	if closed {
+		s.Peer.Close()
+	} else {
+		s.Stop()
+	}
 	if found {
 		obs = "event:" + exp
 	} else {
